@@ -803,6 +803,9 @@ def run(report, p):
     from .common import unorderable_sort_rule
 
     unorderable_sort_rule(report, p, 'R3.16', 'a command')
+    from .common import shadowed_global_rule
+
+    shadowed_global_rule(report, p, 'R3.17')
 
     # ---- rules shared with other properties (same mechanism, same rule, reported under every property it can break)
     include_rules(report, p, 'c12', ['R12.13'], 'an ignored path is neither new nor missing: the traversal and the missing-file filter must agree on the string they match')
